@@ -18,7 +18,8 @@ const N: usize = 8;
 struct CaseJ { index: String, pos: String, nrec: u64, damaged: Vec<String>, same: Vec<String>, other: Vec<String> }
 
 fn data_len(i: u64) -> usize { match i { 1 => 40, 2 => 5000, _ => 9 } }
-fn rec_len(i: u64) -> u64 { (57 + N + 8 + data_len(i)) as u64 }
+fn meta_class(i: u64) -> u64 { if i == 2 { 1 } else { 0 } }
+fn rec_len(i: u64) -> u64 { (57 + N + meta_serialized_size(meta_class(i)) + data_len(i)) as u64 }
 
 async fn outcome(d: &Driver<N>, key_num: u64, want: &[u8]) -> String {
     let st = d.storage.as_ref().unwrap();
@@ -30,10 +31,26 @@ async fn outcome(d: &Driver<N>, key_num: u64, want: &[u8]) -> String {
         Ok(ReadResult::Deleted(_)) => "lost",
         Err(_) => "error",
     };
-    // the other read paths must agree: read_all + Entry::load, Entry::load_data
+    // every other read path must agree: read_with (loads the metadata first), read_all + Entry::load,
+    // Entry::load_data, Entry::load_meta followed by Entry::load
+    let served_elsewhere = |what: &str, bytes: &[u8]| -> Option<String> {
+        if bytes != want { Some(format!("WRONG-BYTES({what})")) } else if base == "error" { Some(format!("served-by-{what}")) } else { None }
+    };
+    for m in [0u64, 1] {
+        if let Ok(ReadResult::Found(b)) = st.read_with(&key, &meta_of(m)).await {
+            if let Some(x) = served_elsewhere("read_with", &b) { return x; }
+        }
+    }
     if let Ok(entries) = st.read_all(&key).await {
         for e in entries {
-            if let Ok(rec) = e.load().await { if &rec.into_data()[..] != want { return "WRONG-BYTES(load)".into(); } else if base == "error" { return "served-by-read_all".into(); } }
+            if let Ok(d) = e.load_data().await { if let Some(x) = served_elsewhere("load_data", &d) { return x; } }
+            if let Ok(rec) = e.load().await { if let Some(x) = served_elsewhere("read_all+load", &rec.into_data()) { return x; } }
+        }
+    }
+    if let Ok(entries) = st.read_all(&key).await {
+        for mut e in entries {
+            let _ = e.load_meta().await;
+            if let Ok(rec) = e.load().await { if let Some(x) = served_elsewhere("load_meta+load", &rec.into_data()) { return x; } }
         }
     }
     base.to_string()
@@ -73,7 +90,10 @@ fn main() {
             let mut offs = Vec::new();
             let mut off = 20u64;
             for i in 1..=c.nrec {
-                d.storage.as_ref().unwrap().write(&key_bytes::<N>(2 * i), Bytes::from(payload(i, data_len(i))), BlobRecordTimestamp::new(5)).await.map_err(|e| format!("{e:#}"))?;
+                let stg = d.storage.as_ref().unwrap();
+                let wr = if meta_class(i) == 0 { stg.write(&key_bytes::<N>(2 * i), Bytes::from(payload(i, data_len(i))), BlobRecordTimestamp::new(5)).await }
+                         else { stg.write_with(&key_bytes::<N>(2 * i), Bytes::from(payload(i, data_len(i))), BlobRecordTimestamp::new(5), meta_of(meta_class(i))).await };
+                wr.map_err(|e| format!("{e:#}"))?;
                 offs.push(off);
                 off += rec_len(i);
             }
@@ -84,7 +104,7 @@ fn main() {
             let blob1 = blob_path(&dir, 1);
             let flen = std::fs::metadata(&blob1).map(|m| m.len()).unwrap_or(0);
             if flen != off { return Err(format!("layout mismatch: blob is {flen} bytes, expected {off}")); }
-            let dstart = offs[(target - 1) as usize] + (57 + N + 8) as u64;
+            let dstart = offs[(target - 1) as usize] + (57 + N + meta_serialized_size(meta_class(target))) as u64;
             let dlen = data_len(target) as u64;
             let mut ps: Vec<u64> = if dense { (0..dlen).collect() } else { vec![0, dlen / 2, dlen - 1] };
             ps.dedup();
